@@ -323,6 +323,57 @@ def _snippet(case):
             "print(open('/tmp/x.json').read())\n")
 
 
+# ------------------------------------------------------------------ a threshold coarser than every interval
+COARSE_TIERS = (
+    # (entries, tier span): every labelled interval and every unlabelled stretch is shorter than the threshold 0.06
+    (((0.5, 0.52, "a"), (0.52, 0.54, "b")), (0.5, 0.54)),
+    (((0.51, 0.53, "a"),), (0.5, 0.54)),
+    (((0.0, 0.03, "a"), (0.04, 0.05, "b")), (0.0, 0.05)),
+    ((), (0.5, 0.54)),
+    (((1.0, 1.05, "a"),), (1.0, 1.05)),
+)
+
+
+def _check_coarse(case):
+    """nothing in the tier is as long as the threshold: C04's promises about labelled intervals 'at least that long' are empty, what remains is the
+    file's shape - the requested span is the file's span and, with blank filling on, the written intervals of every interval tier cover exactly that span,
+    in order, without holes, each of positive length (what they are labelled is not judged here)"""
+    ti, ov, fmt, thr = case
+    ents, (lo, hi) = COARSE_TIERS[ti]
+    tg = Textgrid()
+    tg.addTier(IT("t", list(ents), lo, hi))
+    omin = {"below": lo - 0.01, "both": lo - 0.01, "far-below": lo - 1.0}.get(ov)
+    omax = {"above": hi + 0.01, "both": hi + 0.01, "far-above": hi + 1.0}.get(ov)
+    fmin = lo if omin is None else omin
+    fmax = hi if omax is None else omax
+    fn = os.path.join(scratch_dir(), "c04-coarse.TextGrid")
+    cfg = f"save({fmt}, includeBlankSpaces=True, min={omin!r}, max={omax!r}, minimumIntervalLength={thr!r}) of {ents} span ({lo},{hi})"
+    st, r, _ = call(tg.save, fn, fmt, True, omin, omax, thr, "silence")
+    if st == "exc":
+        return 1, "!", None, [Viol("save-raised:" + type(r).__name__, f"{cfg} raised {r!r}")]
+    with open(fn, encoding="utf-8") as fd:
+        text = fd.read()
+    try:
+        d = praatfmt.decode(text, fmt)
+    except praatfmt.FormatError as e:
+        return 1, "!", None, [Viol("independent-reader-rejects", f"{cfg}: {e}")]
+    if not (teq(fmin, d["xmin"]) and teq(fmax, d["xmax"])):
+        return 1, "!", None, [Viol("file-span", f"{cfg}: file span ({d['xmin']!r},{d['xmax']!r}), requested ({fmin!r},{fmax!r})")]
+    W = [tuple(x) for x in d["tiers"][0]["entries"]]
+    ok = bool(W) and teq(W[0][0], fmin) and teq(W[-1][1], fmax) and all(teq(a[1], b[0]) for a, b in zip(W, W[1:])) and all(w[0] < w[1] for w in W)
+    if not ok:
+        return 1, "!", None, [Viol("written-intervals-do-not-cover-the-span", f"{cfg}: written intervals {W} are not a partition of the requested span [{fmin!r}, {fmax!r}]")]
+    return 1, "ok", (ti, ov, thr), []
+
+
+def _coarse_cases():
+    for ti in range(len(COARSE_TIERS)):
+        for ov in ("none", "below", "above", "both", "far-below", "far-above"):
+            for fmt in FMTS:
+                for thr in (0.06, 10.0, 1e-8, None):
+                    yield (ti, ov, fmt, thr)
+
+
 def parts(tier):
     quick = tier == "quick"
     return [InputPart(
@@ -337,4 +388,8 @@ def parts(tier):
                   rule="the size axis: tiers of 12-160 (thorough up to 400) segments built by repeating 5 units (ordinary / sliver patterns) with sliver lengths "
                        "cycling through {1e-12, 9.9e-9, 1.1e-8} x base times {0, 0.3} x thresholds {None, 1e-8}; the same oracle and the same 13 overrides",
                   bounds={}, snippet=_snippet, chunk=1),
+        InputPart("threshold-coarser-than-every-interval", _coarse_cases, _check_coarse,
+                  rule="tiers in which every labelled interval and every unlabelled stretch is shorter than minimumIntervalLength (0.06, 10; and 1e-8 / None for "
+                       "comparison) x 6 span overrides x 4 formats, blank filling on: the file's span is the requested span and the written intervals "
+                       "partition it (in order, no hole, positive lengths)", bounds={}),
         _c01.residue_part(quick)]
